@@ -610,13 +610,13 @@ def _corpus():
     return out
 
 
-def _cases(ctx, R, name, n):
+def _corpus_cases():
+    return [(c, c["ser"], c["op"], bytes.fromhex(c["data"]), list(c.get("reg", [])), True) for c in _corpus()]
+
+
+def _gen_cases(ctx, R, rng, gen, n):
     """list of (case, ser, op, data, reg, modelled)"""
     out = []
-    for c in _corpus():
-        out.append((c, c["ser"], c["op"], bytes.fromhex(c["data"]), list(c.get("reg", [])), True))
-    rng = ctx.sub_rng(name)
-    gen = G.Gen(R, rng)
     for i in range(n):
         tree, info = gen.payload()
         sers = rng.sample(SERS, 2)
@@ -636,9 +636,27 @@ def _cases(ctx, R, name, n):
     return out
 
 
+CHUNK = 2500
+
+
 def _run(ctx, name, n, do_model):
     R = real()
-    cases = _cases(ctx, R, name, n)
+    rng = ctx.sub_rng(name)
+    gen = G.Gen(R, rng)
+    _run_cases(ctx, R, _corpus_cases(), do_model)
+    done = 0
+    while done < n:
+        k = min(CHUNK, n - done)
+        _run_cases(ctx, R, _gen_cases(ctx, R, rng, gen, k), do_model)
+        done += k
+    REC.start()
+    gc.collect()
+    ev = REC.stop()
+    if ev:
+        ctx.fail("side-effect:gc", "finalizers of decoded objects performed %s" % ev[:3], {"sig": "gc", "events": ev[:5]})
+
+
+def _run_cases(ctx, R, cases, do_model):
     lines, reals, metas = [], [], []
     for idx, (case, ser, op, data, reg, modelled) in enumerate(cases):
         REC.start()
@@ -710,21 +728,16 @@ def _run(ctx, name, n, do_model):
                 ctx.mismatch(ser, {"line": line[:900], "ser": ser, "op": op, "data": data.hex(), "reg": reg,
                                    "literal": repr(lit)[:400]},
                              ("%s | conv=%s imports=%s" % (rc, rconv, rimp))[:500], out[:500])
-    REC.start()
-    gc.collect()
-    ev = REC.stop()
-    if ev:
-        ctx.fail("side-effect:gc", "finalizers of decoded objects performed %s" % ev[:3], {"sig": "gc", "events": ev[:5]})
 
 
 def correspondence(ctx):
-    _run(ctx, "corr", ctx.n(1500, 60000), True)
+    _run(ctx, "corr", ctx.n(6000, 150000), True)
 
 
 def oracle(ctx):
     # step D runs inside _run on the same decodes; search mode adds fresh ones (real code only)
     if ctx.search_mode:
-        _run(ctx, "search", ctx.n(1500, 20000), False)
+        _run(ctx, "search", ctx.n(4000, 40000), False)
 
 
 def replay(ctx, case):
